@@ -28,8 +28,13 @@ def dump_yaml(cfg, path):
         yaml.dump(cfg, f)
 
 
-def run_cli(cfg, extra_args=(), env_extra=None, cwd=None, outdir=True, cfg_text=None):
-    """runs the real command line; returns dict(rc, files {name: text}, stdout)"""
+FAKE_FMT = os.path.join(os.path.dirname(os.path.abspath(__file__)), "fake_fmt.sh")
+
+
+def run_cli(cfg, extra_args=(), env_extra=None, cwd=None, outdir=True, cfg_text=None, fmt=False, pre_cfg=None):
+    """runs the real command line; returns dict(rc, files {name: text}, stdout).
+    fmt: format through the stand-in formatter instead of --no-format;
+    pre_cfg: another description generated into the same output directory first"""
     tmp = tempfile.mkdtemp(prefix="floocli_")
     try:
         cfile = os.path.join(tmp, "cfg.yml")
@@ -39,20 +44,31 @@ def run_cli(cfg, extra_args=(), env_extra=None, cwd=None, outdir=True, cfg_text=
         else:
             dump_yaml(cfg, cfile)
         out = os.path.join(tmp, "out")
-        cmd = [PY, "-W", "ignore", "-m", "floogen.cli", "-c", cfile, "--no-format"] + list(extra_args)
+        fmt_args = ["--verible-fmt-bin", FAKE_FMT] if fmt else ["--no-format"]
+        cmd = [PY, "-W", "ignore", "-m", "floogen.cli", "-c", cfile] + fmt_args + list(extra_args)
         if outdir:
             cmd += ["-o", out]
         env = dict(os.environ)
         env.pop("PYTHONHASHSEED", None)
+        env["MPLBACKEND"] = "Agg"
         if env_extra:
             env.update(env_extra)
+        if pre_cfg is not None and outdir:
+            pfile = os.path.join(tmp, "pre.yml")
+            dump_yaml(pre_cfg, pfile)
+            subprocess.run([PY, "-W", "ignore", "-m", "floogen.cli", "-c", pfile, "--no-format", "-o", out],
+                           capture_output=True, text=True, cwd=cwd or tmp, env=env, timeout=600)
         r = subprocess.run(cmd, capture_output=True, text=True, cwd=cwd or tmp, env=env, timeout=600)
         files = {}
+        others = []
         if os.path.isdir(out):
             for fn in sorted(os.listdir(out)):
+                if not fn.endswith(".sv"):
+                    others.append(fn)
+                    continue
                 with open(os.path.join(out, fn), encoding="utf-8") as f:
                     files[fn] = f.read()
-        return {"rc": r.returncode, "files": files, "stdout": r.stdout, "stderr": r.stderr[-400:]}
+        return {"rc": r.returncode, "files": files, "others": others, "stdout": r.stdout, "stderr": r.stderr[-400:]}
     finally:
         shutil.rmtree(tmp, ignore_errors=True)
 
@@ -62,7 +78,7 @@ class C10Runner:
         import lean
         drv = lean.Driver()
         rng = random.Random(repr((seed, pid, tier)))
-        nbases = 300 if tier == "thorough" else 28
+        nbases = 300 if tier == "thorough" else 60
         stats = collections.Counter()
         per_class = collections.Counter()
         samples = []
@@ -75,12 +91,29 @@ class C10Runner:
         budget = 1500 if tier == "thorough" else 100
         combos = [(f, a, n) for f in ["star", "mesh", "tree"] for a in ["XY", "ID", "SRC"] for n in ["axi", "narrow-wide"]
                   if not (a == "XY" and f != "mesh")]
+        # a few fixed bases that offer every injector a site (partial boundary side, 3-element sides, tree levels,
+        # several ranges), then random ones
+        frng = random.Random(20240)
+        fixed = []
+        gen_desc.VARIATIONS = False
+        try:
+            for algo in ("XY", "ID", "SRC"):
+                fixed.append(("mesh", algo, "axi", gen_desc.gen_partial_side(frng, algo, "axi", 2, 3)))
+            fixed.append(("mesh", "XY", "narrow-wide", gen_desc.gen_mesh(frng, "XY", "narrow-wide", m=2, n=3, sides=["West", "South"], partial_local=False)))
+            fixed.append(("tree", "ID", "axi", gen_desc.gen_tree(frng, "ID", "axi", tree=[1, 2, 2])))
+            fixed.append(("tree", "SRC", "narrow-wide", gen_desc.gen_tree(frng, "SRC", "narrow-wide", tree=[1, 3])))
+        finally:
+            gen_desc.VARIATIONS = True
+        fixed = [x for x in fixed if x[3]]
         for b in range(nbases):
             if time.time() - t0 > budget:
                 stats["stopped-early"] += 1
                 break
-            fam, algo, nt = combos[b % len(combos)]
-            meta, cfg = gen_desc.gen_case(rng, families=[fam], algos=[algo], nettypes=[nt])
+            if b < len(fixed):
+                fam, algo, nt, cfg = fixed[b]
+            else:
+                fam, algo, nt = combos[b % len(combos)]
+                meta, cfg = gen_desc.gen_case(rng, families=[fam], algos=[algo], nettypes=[nt])
             base = impl.run_floogen(cfg)
             mb = drv.call({"cmd": "model", "desc": cfg})["model"]
             evaluations += 1
@@ -130,9 +163,9 @@ class C10Runner:
             if cls == "valid":
                 good = res["rc"] == 0 and len(res["files"]) in (1, 2)
             else:
-                good = (res["rc"] != 0 and not res["files"]) if not inproc.ok else (res["rc"] == 0)
+                good = (res["rc"] != 0 and not res["files"] and not res["others"]) if not inproc.ok else (res["rc"] == 0)
             # the in-process runner must agree with the command line
-            if inproc.ok != (res["rc"] == 0) or (not inproc.ok and res["files"]):
+            if inproc.ok != (res["rc"] == 0) or (not inproc.ok and (res["files"] or res["others"])):
                 stats["cli-vs-inprocess-mismatch"] += 1
                 f = {"claim": "cli-output-on-error" if res["files"] and res["rc"] != 0 else "cli-status",
                      "site": f"{cls}@{site}", "detail": f"rc={res['rc']} files={list(res['files'])} in-process ok={inproc.ok}"}
@@ -183,6 +216,15 @@ def permute_keys(obj, rng):
     if isinstance(obj, list):
         return [permute_keys(v, rng) for v in obj]
     return obj
+
+
+def bigger(cfg):
+    """the same network name with longer files: every endpoint twice as often (arrays only) plus a long description"""
+    c = json.loads(json.dumps(cfg))
+    c["description"] = "x" * 4000
+    c["routers"] = c["routers"] + [{"name": f"spare_rt_{k}"} for k in range(6)]
+    c["connections"] = c["connections"] + [{"src": f"spare_rt_{k}", "dst": f"spare_rt_{k + 1}"} for k in range(5)]
+    return c
 
 
 def reverse_keys(obj):
@@ -277,6 +319,11 @@ class C15Runner:
                 (name, "only-top", dict(cfg=cfg, extra_args=["--only-top"])),
                 (name, "stdout", dict(cfg=cfg, outdir=False)),
                 (name, "stdout-only-pkg", dict(cfg=cfg, outdir=False, extra_args=["--only-pkg"])),
+                (name, "fmt/full", dict(cfg=cfg, fmt=True)),
+                (name, "fmt/only-pkg", dict(cfg=cfg, fmt=True, extra_args=["--only-pkg"])),
+                (name, "fmt/only-top", dict(cfg=cfg, fmt=True, extra_args=["--only-top"])),
+                (name, "visualize", dict(cfg=cfg, extra_args=["--visualize"])),
+                (name, "reuse-dir", dict(cfg=cfg, pre_cfg=bigger(cfg))),
                 (name, "query", dict(cfg=cfg, outdir=False, extra_args=["-q",
                     "[routing.num_endpoints, routing.num_id_bits, routing.num_x_bits, routing.num_y_bits, "
                     "routing.num_route_bits, len(routing.sam.rules), len(endpoints), sum([e[\"num\"] for e in endpoints])]"])),
@@ -348,6 +395,21 @@ class C15Runner:
             o = r["only-top"]
             if o["rc"] != 0 or list(o["files"]) != [topn] or strip_year(o["files"][topn]) != files[topn]:
                 fail("mode-only-top", name, f"rc={o['rc']} files={list(o['files'])}", cfg)
+            ff = r["fmt/full"]
+            if ff["rc"] == 0 and len(ff["files"]) == 2:
+                stats["formatted-runs"] += 1
+                if not all(v.startswith("// formatted") for v in ff["files"].values()):
+                    stats["formatter-not-applied"] += 1
+                for kind, fn in (("fmt/only-pkg", pkgn), ("fmt/only-top", topn)):
+                    o = r[kind]
+                    if o["rc"] != 0 or list(o["files"]) != [fn] or strip_year(o["files"][fn]) != strip_year(ff["files"][fn]):
+                        fail("mode-" + kind, name, f"rc={o['rc']}: formatted {kind[4:]} output differs from the formatted full run", cfg)
+            else:
+                fail("formatted-run-failed", name, f"rc={ff['rc']} files={list(ff['files'])}", cfg)
+            for kind in ("visualize", "reuse-dir"):
+                o = r[kind]
+                if o["rc"] != 0 or {k: strip_year(v) for k, v in o["files"].items()} != files:
+                    fail("nondeterministic:" + kind, name, f"rc={o['rc']} files differ from the plain full run", cfg)
             o = r["stdout"]
             if o["rc"] != 0 or strip_year(o["stdout"]) != files[pkgn] + "\n" + files[topn] + "\n" or o["files"]:
                 fail("mode-stdout", name, "stdout is not package + newline + top + newline", cfg)
